@@ -17,7 +17,7 @@
      of bytes 1..255, can be written plain or does not end in a backslash, and is
      shorter than 2^31 bytes.  Values of ANY such length: no 255 / 65535 limit. *)
 From Coq Require Import List ZArith.
-From MptV Require Import C08.ParseModel C08.PrintModel C08.RoundMain.
+From MptV Require Import C08.ParseModel C08.PrintModel C08.RoundMain C08.RoundFlatMain.
 Import ListNotations.
 Local Open Scope Z_scope.
 
@@ -37,6 +37,46 @@ Theorem C09_decoration_irrelevant :
     wf_items StPre a items = true ->
     parse_tree StPre a (print StPre deco1 items) = parse_tree StPre a (print StPre deco2 items).
 Proof. exact pre_decoration_irrelevant. Qed.
+
+(* Enclosed style ("%x% = #": a section runs from  %name  to the next % or the end) and
+   separated style ("[ ] = #":  [ name ]  ...).  Full statement wanted: as above for every
+   tree.  Proved: the statement for every tree these styles can express at all
+   — options first, then sections holding options only (one level: the next section start ends
+   the open one, mptcore/parse/parse_format_sep.c documents "depth is limited to one") —
+   with names free of white space (a first name character followed by a blank is read
+   through mpt_parse_nextvis, which drops the blank).  Those conditions are part of
+   [wf_items StEnc / StSep]; everything else (decoration, values, flags) is as general as above. *)
+Theorem C09_print_parse_roundtrip_enc_partial :
+  forall a deco items,
+    wf_items StEnc a items = true ->
+    parse_tree StEnc a (print StEnc deco items) = (0, abs_items items).
+Proof. exact enc_roundtrip. Qed.
+
+Theorem C09_print_parse_roundtrip_sep_partial :
+  forall a deco items,
+    wf_items StSep a items = true ->
+    parse_tree StSep a (print StSep deco items) = (0, abs_items items).
+Proof. exact sep_roundtrip. Qed.
+
+(* Enclosed family with distinct delimiters ("[x] = #"): the code cannot end a section in this
+   variant, so it carries option lists only; those are read back. *)
+Theorem C09_print_parse_roundtrip_encd_partial :
+  forall a deco items,
+    wf_items StEncD a items = true ->
+    parse_tree StEncD a (print StEncD deco items) = (0, abs_items items).
+Proof. exact encd_roundtrip. Qed.
+
+Theorem C09_decoration_irrelevant_enc_partial :
+  forall a deco1 deco2 items,
+    wf_items StEnc a items = true ->
+    parse_tree StEnc a (print StEnc deco1 items) = parse_tree StEnc a (print StEnc deco2 items).
+Proof. exact enc_decoration_irrelevant. Qed.
+
+Theorem C09_decoration_irrelevant_sep_partial :
+  forall a deco1 deco2 items,
+    wf_items StSep a items = true ->
+    parse_tree StSep a (print StSep deco1 items) = parse_tree StSep a (print StSep deco2 items).
+Proof. exact sep_decoration_irrelevant. Qed.
 
 (* ---- non-vacuity ---- *)
 Definition tree1 : list item :=
@@ -66,7 +106,7 @@ Example C09_ex_long :
   parse_tree StPre allow_init (print StPre [mkDeco [] [] [] [] [] 34 [] None false] [Opt [107] v]) = (0, [T [107] (Some v) []]).
 Proof. vm_compute. reflexivity. Qed.
 
-(* the other two styles on an example (their general theorems: see notes_C09.md) *)
+(* the other styles on an example *)
 Example C09_ex_enc :
   parse_tree StEnc allow_init (print StEnc deco1 [Opt [116] [49]; Sec [115] [Opt [107;107] [118;32;119]]; Sec [117] []]) =
   (0, abs_items [Opt [116] [49]; Sec [115] [Opt [107;107] [118;32;119]]; Sec [117] []]).
@@ -78,3 +118,8 @@ Proof. vm_compute. reflexivity. Qed.
 
 Print Assumptions C09_print_parse_roundtrip.
 Print Assumptions C09_decoration_irrelevant.
+Print Assumptions C09_print_parse_roundtrip_enc_partial.
+Print Assumptions C09_print_parse_roundtrip_sep_partial.
+Print Assumptions C09_print_parse_roundtrip_encd_partial.
+Print Assumptions C09_decoration_irrelevant_enc_partial.
+Print Assumptions C09_decoration_irrelevant_sep_partial.
